@@ -28,55 +28,104 @@ def scratch_base() -> str:
     raise RuntimeError("no scratch directory")
 
 
+def batch_owner() -> int:
+    """pid of the harness process whose run this is (batch workers inherit it through the environment)."""
+    try:
+        return int(os.environ.get("VSIM_BATCH_OWNER", "") or 0) or os.getpid()
+    except ValueError:
+        return os.getpid()
+
+
+def registry_dir(owner: Optional[int] = None) -> str:
+    d = os.path.join(scratch_base(), "zyg-%d" % (owner or batch_owner()))
+    os.makedirs(d, exist_ok=True)
+    return d
+
+
 class Zygote:
+    """Handle on a zygote process shared by every batch worker of one harness run.
+
+    Zygotes are pristine and are never mutated by serving forks, so which worker happened to start one
+    cannot matter; sharing them means (hash seeds x warm sets) interpreters per run, not per worker.
+    """
+
     def __init__(self, hashseed: int, repo_src: Optional[str] = None, warm: str = "") -> None:
+        import fcntl
+        import socket as _socket
+
         self.hashseed = hashseed
         self.warm = warm
         self.repo_src = repo_src or REPO_SRC
-        base = scratch_base()
-        self.sock = os.path.join(base, "z%d-%d%s.sock" % (os.getpid(), hashseed, "w" if warm else ""))
+        self.owner = batch_owner()
+        wtag = hashlib.sha256(warm.encode()).hexdigest()[:6] if warm else "cold"
+        stag = hashlib.sha256(os.path.realpath(self.repo_src).encode()).hexdigest()[:6]
+        self.sock = os.path.join(registry_dir(self.owner), "z-%d-%s-%s.sock" % (hashseed, wtag, stag))
+        self.proc = None
+        with open(self.sock + ".lock", "w") as lk:
+            fcntl.flock(lk, fcntl.LOCK_EX)
+            alive = False
+            if os.path.exists(self.sock):
+                try:
+                    c = _socket.socket(_socket.AF_UNIX, _socket.SOCK_STREAM)
+                    c.settimeout(5)
+                    c.connect(self.sock)
+                    c.close()  # (a connection that says nothing is dropped by the node it spawned)
+                    alive = True
+                except OSError:
+                    alive = False
+            if not alive:
+                self._start()
+
+    def _start(self) -> None:
         env = dict(os.environ)
-        env["PYTHONHASHSEED"] = str(hashseed)
+        env["PYTHONHASHSEED"] = str(self.hashseed)
         env["PYTHONPATH"] = self.repo_src + ":" + VERIF
         env["PYTHONDONTWRITEBYTECODE"] = "1"
         env["SQLFLUFF_VERIF_SIM"] = "1"
-        env["VSIM_ZYGOTE_WARM"] = warm
+        env["VSIM_ZYGOTE_WARM"] = self.warm
         env.pop("SQLFLUFF_CONFIG", None)
-        self.proc = subprocess.Popen(
-            [PYTHON, "-B", "-m", "vsim.zygote", self.sock],
-            stdin=subprocess.PIPE,
+        proc = subprocess.Popen(
+            [PYTHON, "-B", "-m", "vsim.zygote", self.sock, str(self.owner)],
+            stdin=subprocess.DEVNULL,
             stdout=subprocess.PIPE,
             env=env,
             cwd=VERIF,
+            start_new_session=True,
         )
-        assert self.proc.stdout is not None
-        line = self.proc.stdout.readline().decode()
+        assert proc.stdout is not None
+        line = proc.stdout.readline().decode()
+        proc.stdout.close()
         if not line.startswith("READY"):
             raise RuntimeError("zygote failed to start: %r" % line)
         parts = line.split()
-        self.src = parts[2] if len(parts) > 2 else "?"
-        if os.path.realpath(self.src) != os.path.realpath(self.repo_src):
-            raise RuntimeError(
-                "zygote imported sqlfluff from %s, expected %s" % (self.src, self.repo_src)
-            )
+        src = parts[2] if len(parts) > 2 else "?"
+        if os.path.realpath(src) != os.path.realpath(self.repo_src):
+            raise RuntimeError("zygote imported sqlfluff from %s, expected %s" % (src, self.repo_src))
+        self.proc = proc
+
+    def alive(self) -> bool:
+        return os.path.exists(self.sock)
 
     def node(self, init: dict, sink: Optional[list] = None) -> RemoteNode:
         return RemoteNode(self.sock, init, sink=sink)
 
     def stop(self) -> None:
-        try:
-            if self.proc.stdin:
-                self.proc.stdin.close()
-            self.proc.wait(timeout=5)
-        except Exception:
+        """Zygotes belong to the run, not to a worker: only the owner tears them down (stop_all_zygotes)."""
+
+
+def stop_all_zygotes(owner: Optional[int] = None) -> None:
+    d = os.path.join(scratch_base(), "zyg-%d" % (owner or os.getpid()))
+    if not os.path.isdir(d):
+        return
+    import signal
+
+    for name in os.listdir(d):
+        if name.endswith(".pid"):
             try:
-                self.proc.kill()
-            except Exception:
+                os.kill(int(open(os.path.join(d, name)).read().strip() or "0"), signal.SIGTERM)
+            except (OSError, ValueError):
                 pass
-        try:
-            os.unlink(self.sock)
-        except OSError:
-            pass
+    shutil.rmtree(d, ignore_errors=True)
 
 
 class Cluster:
@@ -93,11 +142,8 @@ class Cluster:
     def zygote(self, hashseed: int, warm: str = "") -> Zygote:
         key = (hashseed, warm)
         z = self.zygotes.get(key)
-        if z is not None and z.proc.poll() is None:
+        if z is not None and z.alive():
             return z
-        if len(self.zygotes) >= self.max:
-            old = self.order.pop(0)
-            self.zygotes.pop(old).stop()
         z = Zygote(hashseed, self.repo_src, warm)
         self.zygotes[key] = z
         self.order.append(key)
@@ -157,9 +203,9 @@ class Cluster:
             pass
 
     def shutdown(self) -> None:
-        for z in list(self.zygotes.values()):
-            z.stop()
         self.zygotes.clear()
+        if batch_owner() == os.getpid():
+            stop_all_zygotes(os.getpid())
         for r in list(self.roots):
             self.drop_root(r)
         self.roots = []
